@@ -88,6 +88,19 @@ def rand_input(rng, ftype, n, z0):
             z = (rng.uniform(0.2, 3) + 1j * rng.standard_normal()) * zl ** 2
             m[:, :] = z
         return m
+    if ftype in ("Z", "Y") and n >= 2 and rng.random() < 0.1:
+        # lossless reactive networks: a purely imaginary, symmetric matrix,
+        # some of whose diagonal entries are exactly zero (a series L-C at
+        # resonance); perfectly regular as a whole
+        zl = np.sqrt(np.abs(z0))
+        x = rng.standard_normal((n, n))
+        x = (x + x.T) / 2
+        for i in range(n):
+            if rng.random() < 0.5:
+                x[i, i] = 0.0
+        m = 1j * x
+        return (m * np.outer(zl, zl) if ftype == "Z"
+                else m / np.outer(zl, zl)).astype(complex)
     if ftype in ("S", "Z", "Y") and n >= 2 and rng.random() < 0.06:
         # uncoupled ports: an exactly diagonal matrix (separate one-port
         # terminations on every port)
